@@ -29,6 +29,11 @@ META = {
 }
 
 
+CMPS = ["eq", "ne", "lt", "le", "gt", "ge"]
+COQCMP = {"eq": "CEq", "ne": "CNe", "lt": "CLt", "le": "CLe", "gt": "CGt", "ge": "CGe"}
+GOCMP = {"eq": "==", "ne": "!=", "lt": "<", "le": "<=", "gt": ">", "ge": ">="}
+
+
 def gen_lines(ck, quick):
     rng = ck.rng
     L = []
@@ -105,6 +110,26 @@ def gen_lines(ck, quick):
             for mode in ("strict", "relaxed"):
                 add("I", mode, au.hv((k, 0, rng.choice(bnd[k]))), f)
                 add("I", mode, "float64:0:%d" % rng.choice(fl), v)
+    # the six comparison opcodes, stack form and operand-constant form
+    for op in CMPS:
+        for k1 in au.IK:
+            for k2 in au.IK:
+                c1, c2 = rng.randint(0, 1), rng.randint(0, 1)
+                a = rng.choice(bnd[k1])
+                b = a if (rng.random() < 0.4 and au.in_range(k2, a)) else rng.choice(bnd[k2])
+                kform = ["k"] if (c2 and rng.random() < 0.6) else []
+                for mode in ("strict", "relaxed"):
+                    add("C", mode, op, au.hv((k1, c1, a)), au.hv((k2, c2, b)), *kform)
+        for (ko, po) in others + [("float64", 2), ("float64", -1)]:
+            for k in au.IK + ["bool", "string", "float64"]:
+                if k in au.BITS:
+                    v = (k, rng.randint(0, 1), rng.choice([2, 1, 0, rng.choice(bnd[k])]))
+                else:
+                    v = (k, rng.randint(0, 1), True if k == "bool" else "ab" if k == "string" else 2)
+                o = (ko, rng.randint(0, 1), po)
+                x, y = (o, v) if rng.random() < 0.5 else (v, o)
+                for mode in ("strict", "relaxed"):
+                    add("C", mode, op, au.hv(x), au.hv(y))
     add("B", "strict", "div", "int:0:7", "float64:1:2")
     add("B", "relaxed", "div", "int:0:7", "float64:1:2")
     return L
@@ -118,6 +143,10 @@ def case_of(line):
         v1, v2 = au.parse_hv(f[4]), au.parse_hv(f[5])
         if au.modelled(v1) and au.modelled(v2):
             c["model"] = "binop %s %s %s %s" % (au.COQM[f[2]], au.COQOP[f[3]], au.coq_vc(v1), au.coq_vc(v2))
+    elif t == "C":
+        v1, v2 = au.parse_hv(f[4]), au.parse_hv(f[5])
+        if au.modelled(v1) and au.modelled(v2):
+            c["model"] = "compare_op %s %s %s %s" % (au.COQM[f[2]], COQCMP[f[3]], au.coq_vc(v1), au.coq_vc(v2))
     elif t == "I":
         v, s = au.parse_hv(f[3]), au.parse_hv(f[4])
         c["model"] = "increment cfg_now %s %s %s" % (au.COQM[f[2]], au.coq_val(v), au.coq_vc(s))
@@ -292,6 +321,87 @@ def gen_alias_program(rng, which):
     return "\n".join(out) + "\n"
 
 
+def gen_model_program(rng):
+    """A program inside the fragment of coq/Arith/Prog.v, as Ego source AND as the instruction list the compiler
+    emits for it at -o 0 (Load/Push/op/Store, Push+compare, BranchFalse/Jump). Returns (text, coq instr list, coq state)."""
+    ks = [rng.choice(au.IK) for _ in range(3)]
+    if rng.random() < 0.6:
+        ks[1] = ks[0]
+    init = [rng.choice([0, 1, 5, 100, au.kmax(k) if au.kmax(k) < (1 << 63) else 7, au.kmin(k)]) for k in ks]
+    src = ["package main", 'import "fmt"', "func main() {"]
+    for i, (k, v) in enumerate(zip(ks, init)):
+        src.append("    var v%d %s = %d" % (i, k, v))
+    ins = []
+    binop = {"+": "Add", "-": "Sub", "*": "Mul", "/": "Div", "%": "Mod"}
+
+    def push(k):
+        return "IPush (VInt Int (%d)) true" % k
+
+    def pr(i):
+        return ['    fmt.Printf("%%T %%v\\n", v%d, v%d)' % (i, i)], ["ILoad %d" % i, "IPrint"]
+
+    for _ in range(rng.randint(5, 10)):
+        x, y = rng.randrange(3), rng.randrange(3)
+        k = rng.choice([1, 2, 3, 7, 100, 300, 70000]) if rng.random() < 0.8 else rng.choice([1 << 31, 1 << 40])
+        r = rng.random()
+        if r < 0.3:
+            op = rng.choice("+-*/%")
+            src.append("    v%d = v%d %s %d" % (x, y, op, k))
+            ins += ["ILoad %d" % y, push(k), "IBin %s" % binop[op], "IStore %d" % x]
+        elif r < 0.45:
+            op = rng.choice("+-*/")
+            src.append("    v%d %s= %d" % (x, op, k))
+            ins += ["ILoad %d" % x, push(k), "IBin %s" % binop[op], "IStore %d" % x]
+        elif r < 0.55:
+            op = rng.choice(["++", "--"])
+            src.append("    v%d%s" % (x, op))
+            ins += ["ILoad %d" % x, push(1), "IBin %s" % ("Add" if op == "++" else "Sub"), "IStore %d" % x]
+        elif r < 0.62:
+            src.append("    v%d = v%d" % (x, y))
+            ins += ["ILoad %d" % y, "IStore %d" % x]
+        elif r < 0.7:
+            src.append("    v%d = %d" % (x, k))
+            ins += [push(k), "IStore %d" % x]
+        elif r < 0.78:
+            op = rng.choice("+-*")
+            src.append("    v%d = v%d %s v%d" % (x, x, op, y))
+            ins += ["ILoad %d" % x, "ILoad %d" % y, "IBin %s" % binop[op], "IStore %d" % x]
+        else:
+            cm = rng.choice(CMPS)
+            (s1, i1), (s2, i2) = pr(x), pr(y)
+            if rng.random() < 0.5:
+                src.append("    if v%d %s %d {" % (x, GOCMP[cm], k))
+                cond = ["ILoad %d" % x, push(k), "ICmp %s" % COQCMP[cm]]
+            else:
+                src.append("    if v%d %s v%d {" % (x, GOCMP[cm], y))
+                cond = ["ILoad %d" % x, "ILoad %d" % y, "ICmp %s" % COQCMP[cm]]
+            src += ["    " + l for l in s1] + ["    } else {"] + ["    " + l for l in s2] + ["    }"]
+            ins += cond + ["IBranchFalse %d" % (len(i1) + 1)] + i1 + ["IJump %d" % len(i2)] + i2
+        if rng.random() < 0.4:
+            s1, i1 = pr(x)
+            src += s1
+            ins += i1
+    for i in range(3):
+        s1, i1 = pr(i)
+        src += s1
+        ins += i1
+    src.append("}")
+    state = "{| stack := []; vars := [%s]; out := []; skip := 0%%nat |}" % "; ".join(
+        "VInt %s (%d)" % (au.COQK[k], v) for k, v in zip(ks, init))
+    return "\n".join(src) + "\n", "[" + "; ".join(ins) + "]", state
+
+
+def parse_printed(out):
+    """lines '<type> <value>' printed by fmt.Printf("%T %v") -> Coq list of values, or None if not all integer kinds"""
+    vals = []
+    for line in out.splitlines():
+        f = line.split()
+        if len(f) != 2 or f[0] not in au.BITS:
+            return None
+        vals.append("VInt %s (%d)" % (au.COQK[f[0]], int(f[1])))
+    return "[" + "; ".join(vals) + "]"
+
+
 def run_ego(ck, ego, path, mode, opt):
     for attempt in range(3):
         try:
@@ -301,6 +411,15 @@ def run_ego(ck, ego, path, mode, opt):
             time.sleep(2)
             vf.build_ego()
     return 1, "Error: could not start ego"
+
+
+def coq_compare_prog(ck, exprs):
+    prelude = ("From Coq Require Import ZArith List.\nFrom Common Require Import Base.\nFrom Arith Require Import Model Prog.\n"
+               "Import ListNotations.\nOpen Scope Z_scope.\nDefinition allc : list Z := Eval vm_compute in [\n%s\n].\n" % ";\n".join(exprs))
+    ok, res = vf.coq_eval(GROUP, ck.work, "progs", prelude, {"bad": "idx_where 1 0 allc", "oom": "idx_where 2 0 allc"})
+    if not ok:
+        return False, res, None
+    return True, res["bad"], res["oom"]
 
 
 def run(ck):
@@ -315,7 +434,8 @@ def run(ck):
     ck.trusted("harness/C03/c03_test.go, lib/arith_util.py (generators, regex translator strictness_sites), props/C04.py program generator",
                "classification of read sites in coq/Arith/Sites.v")
     thms = ["C04_binop_partial", "C04_store_partial", "C04_argument_partial", "C04_return_partial", "C04_increment_partial",
-            "C04_statement_forms_partial", "C04_float_literal_partial", "C04_boundaries_partial"]
+            "C04_statement_forms_partial", "C04_float_literal_partial", "C04_boundaries_partial",
+            "C04_compare_partial", "C04_program_partial", "C04_program_state_partial"]
     ck.coq_stage(GROUP, module="PropertiesC04", theorems=thms)
     replay = json.load(open(ck.replay_file))["replay"] if ck.replay_file else None
 
@@ -427,6 +547,36 @@ def run(ck):
                                  replay={"program": progs[pi], "opt": o})
                     found.add("prog")
             clean = len({j[0] for j in cleanjobs})
+            # programs inside the fragment of the program model: real stdout vs `run` of coq/Arith/Prog.v, both modes, -o 0
+            if replay is None and not getattr(ck, "coq_broken", None):
+                mprogs = [gen_model_program(ck.rng) for _ in range(12 if quick else 120)]
+                mpaths = []
+                for pi, (text, _, _) in enumerate(mprogs):
+                    p = os.path.join(ck.work, "m%d.ego" % pi)
+                    with open(p, "w") as f:
+                        f.write(text)
+                    mpaths.append(p)
+                mjobs = [(pi, m) for pi in range(len(mprogs)) for m in ("strict", "relaxed")]
+                with ThreadPoolExecutor(max_workers=6) as ex:
+                    mres = list(ex.map(lambda j: run_ego(ck, ego, mpaths[j[0]], j[1], 0), mjobs))
+                nrun += len(mjobs)
+                exprs, meta = [], []
+                for (pi, m), (rc, out_m) in zip(mjobs, mres):
+                    failed = rc != 0 or "Error:" in out_m
+                    exp = None if failed else parse_printed(out_m)
+                    if not failed and exp is None:
+                        continue
+                    exprs.append("chk_run %s %s %s %s" % (au.COQM[m], mprogs[pi][1], mprogs[pi][2], "None" if failed else "(Some %s)" % exp))
+                    meta.append((pi, m, out_m))
+                okp, badp, oomp = coq_compare_prog(ck, exprs)
+                if not okp:
+                    ck.violation("program-model-eval", "program model evaluation failed:\n" + str(badp)[-1200:], replay={"log": str(badp)[-3000:]}, found_input=False)
+                else:
+                    ck.cov["input_distribution"]["model_programs_compared(program x mode)"] = len(exprs) - len(oomp)
+                    for i in badp[:3]:
+                        pi, m, out_m = meta[i]
+                        ck.violation("corr:program:%s" % m, "the program model (coq/Arith/Prog.v run) and the real binary disagree under --types %s -o 0; real output:\n%s\nprogram:\n%s" % (
+                            m, out_m[-300:], mprogs[pi][0]), replay={"program": mprogs[pi][0], "opt": 0, "instrs": mprogs[pi][1]}, found_input=False)
             ck.cov["evaluations"] += nrun
             ck.cov["input_distribution"]["programs_generated"] = len(progs)
             ck.cov["input_distribution"]["program_families"] = "random typed arithmetic / int-var x integral-float-literal and float-var x int-literal / aliasing through return, argument, store (8 element types, map, struct)"
